@@ -189,7 +189,7 @@ class RegenHistory(Bounded):
     a second make regenerates nothing."""
     native_chunk = 1
     target = 'bfg9000/builtins/find.py::find_check_cache'
-    properties = ('C08', 'C10')
+    properties = ('C08', 'C10', 'C11', 'C18')
     reason = 'history over the file system, mtimes and an external make process: runtime contract only'
 
     def native_inputs(self, case, alphabet, maxlen, rng, extra=0):
